@@ -117,3 +117,44 @@ def hole_terms(field):
         else:
             out.append(('text', x, None))
     return out
+
+
+def nonempty_polarity(cond):
+    """+1 when cond holds iff some list is NON-empty (x, len(x) != 0, len(x) > 0, not len(x) == 0, x != []), -1 for the
+    negation, 0 when it is not such a test; second value: the list term tested"""
+    neg = False
+    c = cond
+    while c[0] == 'not':
+        neg, c = not neg, c[1]
+    pol, lst = 0, None
+    if c[0] == 'cmp' and c[2][0] == 'call' and c[2][1] == S('len') and len(c[2][2]) == 1 and c[3] in (C(0), C(1)):
+        lst = c[2][2][0]
+        if c[3] == C(0):
+            pol = {'NotEq': 1, 'Gt': 1, 'Eq': -1, 'LtE': -1}.get(c[1], 0)
+        else:
+            pol = {'GtE': 1, 'Lt': -1}.get(c[1], 0)
+    elif c[0] == 'cmp' and c[3] == ('list', ()) and c[1] in ('Eq', 'NotEq'):
+        lst, pol = c[2], (1 if c[1] == 'NotEq' else -1)
+    elif c[0] in ('sym', 'attr', 'idx', 'bvar', 'comp', 'accum'):
+        lst, pol = c, 1
+    return (-pol if neg else pol), lst
+
+
+def list_alt_problems(field):
+    """a preference-list field that is written conditionally: the branch that carries the tokens must be the one taken when
+    the lists EXIST.  -> list of problem texts"""
+    out = []
+    for x in field:
+        if not isinstance(x, doc.Alt):
+            continue
+        def has_tokens(items):
+            return any(isinstance(i_, (doc.Rep, doc.Hole, doc.Alt)) for i_ in items)
+        a_tok, b_tok = has_tokens(x.a), has_tokens(x.b)
+        if a_tok == b_tok:
+            continue
+        pol, lst = nonempty_polarity(x.cond)
+        if pol == 0:
+            continue
+        if (pol == 1) != a_tok:
+            out.append('the preference tokens are written when %s is EMPTY and left out when it has entries (condition %s)' % (show(lst)[:40], show(x.cond)[:60]))
+    return out
